@@ -197,6 +197,8 @@ class PopulatorAdapter:
             self.pop.add_rule(path_str(rule['dir'], os.sep), self._factory(self.n_rules, rule['fac']), *a,
                               file_exts=['.' + e for e in sorted(rule['exts'])], **kw)
         self.log = []
+        if c in sc['fresh']:                 # the same populator goes on with a new, empty map
+            self.map = self.desper.ResourceMap()
         opts = {}
         if call['n'] != 'N':
             opts['nest_on_conflict'] = call['n'] == 'T'
